@@ -237,13 +237,13 @@ var overrides = map[string]ov{
 		}
 		return stringVals(100)
 	},
-	"chat.LegacyChat.Type":                                   fixed(enumVals(0, 2)),
-	"chat.SystemChat.Type":                                   fixed(intVals(1, 2, 0)),
-	"chat.SessionPlayerChat.Message":                         strMax(256),
-	"chat.SessionPlayerChat.Signature":                       fixed(fixedBytesVals(256)),
-	"chat.SessionPlayerChat.LastSeenMessages.Offset":         fixed(alphaNonNegVarInt),
-	"chat.SessionPlayerCommand.LastSeenMessages.Offset":      fixed(alphaNonNegVarInt),
-	"chat.ChatAcknowledgement.Offset":                        fixed(alphaNonNegVarInt),
+	"chat.LegacyChat.Type":                                           fixed(enumVals(0, 2)),
+	"chat.SystemChat.Type":                                           fixed(intVals(1, 2, 0)),
+	"chat.SessionPlayerChat.Message":                                 strMax(256),
+	"chat.SessionPlayerChat.Signature":                               fixed(fixedBytesVals(256)),
+	"chat.SessionPlayerChat.LastSeenMessages.Offset":                 fixed(alphaNonNegVarInt),
+	"chat.SessionPlayerCommand.LastSeenMessages.Offset":              fixed(alphaNonNegVarInt),
+	"chat.ChatAcknowledgement.Offset":                                fixed(alphaNonNegVarInt),
 	"chat.SessionPlayerCommand.ArgumentSignatures.Entries.Name":      strMax(16),
 	"chat.SessionPlayerCommand.ArgumentSignatures.Entries.Signature": fixed(fixedBytesVals(256)),
 	"chat.SessionPlayerCommand.Command": func(c Cell) []Val {
@@ -295,13 +295,13 @@ var overrides = map[string]ov{
 	"packet.Respawn.DimensionInfo.LevelName":           ptrIdent,
 	"packet.JoinGame.LastDeathPosition.Key":            fixed(identVals),
 	"packet.Respawn.LastDeathPosition.Key":             fixed(identVals),
-	"packet.JoinGame.Registry":             fixed(nbtVals(true)),
-	"packet.JoinGame.CurrentDimensionData": fixed(nbtVals(true)),
-	"packet.Respawn.CurrentDimensionData":  fixed(nbtVals(true)),
-	"packet.Respawn.Gamemode":              fixed(gamemodes),
-	"packet.Respawn.PreviousGamemode":      fixed(intVals(0, 1, -1, 2, 3)),
-	"packet.Respawn.Difficulty":            fixed(intVals(0, 1, 2, 3)),
-	"packet.Respawn.LevelType":             strMax(16),
+	"packet.JoinGame.Registry":                         fixed(nbtVals(true)),
+	"packet.JoinGame.CurrentDimensionData":             fixed(nbtVals(true)),
+	"packet.Respawn.CurrentDimensionData":              fixed(nbtVals(true)),
+	"packet.Respawn.Gamemode":                          fixed(gamemodes),
+	"packet.Respawn.PreviousGamemode":                  fixed(intVals(0, 1, -1, 2, 3)),
+	"packet.Respawn.Difficulty":                        fixed(intVals(0, 1, 2, 3)),
+	"packet.Respawn.LevelType":                         strMax(16),
 	"packet.Respawn.Dimension": func(c Cell) []Val {
 		if ge(c, version.Minecraft_1_20_5) {
 			return alphaNonNegVarInt
@@ -316,9 +316,9 @@ var overrides = map[string]ov{
 	},
 
 	// --- titles / boss bar / tab list ---
-	"title.Legacy.Action":   fixed(enumVals(0, 5)),
-	"title.Clear.Action":    fixed(intVals(4, 5)),
-	"bossbar.BossBar.Action": fixed(enumVals(0, 5)),
+	"title.Legacy.Action":     fixed(enumVals(0, 5)),
+	"title.Clear.Action":      fixed(intVals(4, 5)),
+	"bossbar.BossBar.Action":  fixed(enumVals(0, 5)),
 	"bossbar.BossBar.Color":   fixed(enumVals(0, 6)),
 	"bossbar.BossBar.Overlay": fixed(enumVals(0, 4)),
 	"legacytablist.PlayerListItem.Action": func(c Cell) []Val {
